@@ -140,7 +140,7 @@ fn cleanup(w: &mut World) {
 	w.node.st.lock().pool.clear();
 }
 
-fn one_case(w: &mut World, rep: &mut Report, rng: &mut Rng, kind: Kind, n_other: usize, by_slate_id: bool, change: u32, minconf0: bool, cross: bool) {
+fn one_case(w: &mut World, rep: &mut Report, rng: &mut Rng, kind: Kind, n_other: usize, by_slate_id: bool, change: u32, minconf0: bool, cross: bool, restored: bool) {
 	fund(w);
 	cleanup(w);
 	// which wallet cancels
@@ -162,6 +162,28 @@ fn one_case(w: &mut World, rep: &mut Report, rng: &mut Rng, kind: Kind, n_other:
 		})();
 		if r.is_err() {
 			rep.count("other-pending-setup-failed");
+		}
+	}
+	// every fourth case the cancelling wallet's coins are records a scan has restored (as in a wallet restored from
+	// its seed: stored under their MMR index), not records written by the normal flows
+	if restored {
+		let wal = &w.wallets[me];
+		let outs = wal.all_outputs().unwrap_or_default();
+		let r = (|| -> Result<(), libwallet::Error> {
+			with_backend!(wal, b, {
+				let mut batch = b.batch(wal.m())?;
+				for o in outs.iter().filter(|o| o.status == OutputStatus::Unspent) {
+					batch.delete(&o.key_id, &o.mmr_index)?;
+				}
+				batch.commit()?;
+				Ok(())
+			})
+		})();
+		if r.is_ok() && wal.scan(None, false).is_ok() {
+			let n = wal.all_outputs().unwrap_or_default().iter().filter(|o| o.status == OutputStatus::Unspent && o.mmr_index.is_some()).count();
+			if n > 0 {
+				rep.count("case-with-scan-restored-coins");
+			}
 		}
 	}
 	// cross-account cases: log ids are allocated per account, so the cancelling wallet gets pending
@@ -287,7 +309,7 @@ fn one_case(w: &mut World, rep: &mut Report, rng: &mut Rng, kind: Kind, n_other:
 	let mine: Vec<libwallet::TxLogEntry> = wal.all_txs().unwrap_or_default().into_iter().filter(|t| t.tx_slate_id == Some(id)).collect();
 	// did T reserve an output that was still unconfirmed?
 	let spent_unconfirmed = wal.all_outputs().unwrap_or_default().iter().any(|o| o.status == OutputStatus::Locked && unconf_before.contains(&idstr(&o.key_id)));
-	let case = json!({"job":"c05","kind": format!("{:?}", kind), "cross_account": cross, "account_under_test": t_account, "other_pending": n_other, "cancel_by": if by_slate_id {"slate id"} else {"log id"}, "change_outputs": change, "minimum_confirmations": mc, "amount": amount.to_string()});
+	let case = json!({"job":"c05","kind": format!("{:?}", kind), "cross_account": cross, "coins_restored_by_scan": restored, "account_under_test": t_account, "other_pending": n_other, "cancel_by": if by_slate_id {"slate id"} else {"log id"}, "change_outputs": change, "minimum_confirmations": mc, "amount": amount.to_string()});
 	// cancel (self-send: two entries share the slate id, so both are cancelled by log id)
 	let mut results = vec![];
 	if kind == Kind::SelfSend || !by_slate_id {
@@ -477,7 +499,7 @@ pub fn run(a: &Args) {
 					let change = if round == 0 { (idx % 4) as u32 } else { rng.below(4) as u32 };
 					let change = if change == 0 && *kind != Kind::SentLocked { 1 } else { change };
 					// every third case also has pending transactions with the same log ids in the wallet's other account
-					one_case(&mut w, &mut rep, &mut rng, *kind, n_other, *by_slate, std::cmp::max(change, if *kind == Kind::SentLocked { 0 } else { 1 }), false, idx % 3 == 0);
+					one_case(&mut w, &mut rep, &mut rng, *kind, n_other, *by_slate, std::cmp::max(change, if *kind == Kind::SentLocked { 0 } else { 1 }), false, idx % 3 == 0, idx % 4 == 1);
 				}
 			}
 		}
@@ -485,7 +507,7 @@ pub fn run(a: &Args) {
 		for kind in [Kind::SentLocked, Kind::SentFinalized].iter() {
 			idx += 1;
 			if idx % a.nshards == a.shard {
-				one_case(&mut w, &mut rep, &mut rng, *kind, 1, false, 1, true, false);
+				one_case(&mut w, &mut rep, &mut rng, *kind, 1, false, 1, true, false, false);
 			}
 		}
 	}
